@@ -319,4 +319,167 @@ theorem run_cancel_outcome (c : Cfg) (k : Nat) (hc : CancelCfg c k) (hd : Domain
     rw [openedCount_append] at hge
     rw [hT, cancelOutcome_split k blk post pre 0 (by omega) (by omega), hcalls, herr, hvis]
 
+/-! ### cancelled before the scan: the first `handleFile` call fails, whatever the configuration -/
+
+/-- a state in which the context is cancelled and nothing has been visited yet -/
+structure Fresh (s : St) : Prop where
+  cancelled : s.cancelled = true
+  inodes : s.inodes = 0
+  visited : s.visited = 0
+  calls : s.calls = []
+  giDirs : s.giDirs = []
+
+/-- the outcome of the first call: context error, nothing attempted, one inode reported -/
+def CtxOne (r : St × Err) : Prop := r.2 = .ctx ∧ r.1.calls = [] ∧ r.1.visited = 1
+
+theorem prologue_fresh (c : Cfg) (s : St) (h : Fresh s) :
+    (prologue c s).2 = some .ctx ∧ (prologue c s).1.calls = [] ∧ (prologue c s).1.visited = 1 ∧
+    (prologue c s).1.giDirs = [] := by
+  unfold prologue
+  have : ¬ (0 < c.maxInodes ∧ c.maxInodes = 0) := by omega
+  simp [h.cancelled, h.inodes, h.visited, h.calls, h.giDirs, this]
+
+theorem fserrCall_fresh (c : Cfg) (s : St) (h : Fresh s) : CtxOne (fserrCall c s) := by
+  unfold fserrCall
+  have hp := prologue_fresh c s h
+  generalize prologue c s = r at hp ⊢
+  obtain ⟨s1, e1⟩ := r
+  simp only [] at hp
+  obtain ⟨h1, h2, h3, _⟩ := hp
+  subst h1
+  exact ⟨rfl, h2, h3⟩
+
+theorem walkNode_fresh (c : Cfg) (f : Faults) (s : St) (p : Path) (n : Node) (h : Fresh s) : CtxOne (walkNode c f s p n) := by
+  have hp := prologue_fresh c s h
+  cases n with
+  | file k sz =>
+    simp only [walkNode]
+    generalize prologue c s = r at hp ⊢
+    obtain ⟨s1, e1⟩ := r
+    simp only [] at hp
+    obtain ⟨h1, h2, h3, _⟩ := hp
+    subst h1
+    exact ⟨rfl, h2, h3⟩
+  | dir gi es =>
+    simp only [walkNode]
+    generalize prologue c s = r at hp ⊢
+    obtain ⟨s1, e1⟩ := r
+    simp only [] at hp
+    obtain ⟨h1, h2, h3, h4⟩ := hp
+    subst h1
+    simp only []
+    rw [popOnExit_nopush c s1 p .ctx (by rw [h4]; intro d hd; cases hd)]
+    exact ⟨rfl, h2, h3⟩
+
+theorem walkFrom_fresh (c : Cfg) (f : Faults) (s : St) (root : Node) (p : Path) (h : Fresh s) : CtxOne (walkFrom c f s root p) := by
+  unfold walkFrom
+  split
+  · exact fserrCall_fresh c s h
+  · split
+    · exact fserrCall_fresh c s h
+    · exact walkNode_fresh c f s p _ h
+
+/-- one requested path, cancelled context: the context error after one visit — except that with
+`ErrorOnFSErrors` and gitignore handling an unreadable parent `.gitignore` of a requested directory is
+reported (as the filesystem error) before any `handleFile` call -/
+theorem walkRequested_fresh (c : Cfg) (f : Faults) (s : St) (root : Node) (p : Path) (h : Fresh s) :
+    (walkRequested c f s root p).1.calls = [] ∧
+    (CtxOne (walkRequested c f s root p) ∨
+     ((walkRequested c f s root p).2 = .fs ∧ (walkRequested c f s root p).1.visited = 0 ∧
+       c.errorOnFSErrors = true ∧ c.useGitignore = true)) := by
+  have hsg : ∀ g, Fresh { s with gis := g } := fun g => ⟨h.cancelled, h.inodes, h.visited, h.calls, h.giDirs⟩
+  have lift : ∀ r : St × Err, CtxOne r → CtxOne ({ r.1 with gis := [] }, r.2) := fun r hr => hr
+  unfold walkRequested
+  split
+  · have := fserrCall_fresh c s h; exact ⟨this.2.1, Or.inl this⟩
+  · split
+    · have := fserrCall_fresh c s h; exact ⟨this.2.1, Or.inl this⟩
+    · by_cases hu : c.useGitignore = true
+      · simp only [hu, if_true]
+        by_cases hfe : ((parentGis f root p).2 && c.errorOnFSErrors) = true
+        · simp only [hfe, if_true]
+          simp only [Bool.and_eq_true] at hfe
+          exact ⟨h.calls, Or.inr ⟨by trivial, h.visited, hfe.2, by trivial⟩⟩
+        · simp only [hfe, Bool.false_eq_true, if_false]
+          have := lift _ (walkFrom_fresh c f _ root p (hsg (parentGis f root p).1))
+          exact ⟨this.2.1, Or.inl this⟩
+      · simp only [hu, Bool.false_eq_true, if_false]
+        have := lift _ (walkFrom_fresh c f s root p h)
+        exact ⟨this.2.1, Or.inl this⟩
+    · have hp := prologue_fresh c s h
+      generalize prologue c s = r at hp ⊢
+      obtain ⟨s1, e1⟩ := r
+      simp only [] at hp
+      obtain ⟨h1, h2, h3, _⟩ := hp
+      subst h1
+      exact ⟨h2, Or.inl ⟨rfl, h2, h3⟩⟩
+
+/-- **Cancelled before the scan** (EVERY configuration — limits, fatal errors, requested paths, panicking
+extractors — every forest with at least one root and every fault plan): no extraction is attempted and the
+scan fails; it fails with the context error after reporting exactly one inode, except in the one corner where
+a requested directory's unreadable parent `.gitignore` is fatal and is met before any `handleFile` call. -/
+theorem run_cancelBefore (c : Cfg) (hc : c.cancelBefore = true) (r : Node) (f : Faults) (rest : List (Node × Faults)) :
+    (run c ((r, f) :: rest)).calls = [] ∧
+    (((run c ((r, f) :: rest)).err = .ctx ∧ (run c ((r, f) :: rest)).visited = 1) ∨
+     ((run c ((r, f) :: rest)).err = .fs ∧ (run c ((r, f) :: rest)).visited = 0 ∧
+       c.errorOnFSErrors = true ∧ c.useGitignore = true ∧ c.paths ≠ [])) := by
+  have hfresh : Fresh { cancelled := true, pkgs := [], errs := [], found := [] } := ⟨rfl, rfl, rfl, rfl, rfl⟩
+  unfold run
+  simp only [runRoots, runRoot, hc]
+  cases hps : c.paths with
+  | nil =>
+    simp only [List.isEmpty_nil, if_true]
+    have key := walkFrom_fresh c f _ r [] hfresh
+    generalize walkFrom c f _ r [] = x at key ⊢
+    obtain ⟨s1, e1⟩ := x
+    obtain ⟨k1, k2, k3⟩ := key
+    simp only [] at k1 k2 k3
+    subst k1
+    simp [k2, k3]
+  | cons p ps =>
+    simp only [List.isEmpty_cons, Bool.false_eq_true, if_false, walkPaths]
+    have key := walkRequested_fresh c f _ r p hfresh
+    generalize walkRequested c f _ r p = x at key ⊢
+    obtain ⟨s1, e1⟩ := x
+    obtain ⟨k0, key⟩ := key
+    simp only [] at k0 key
+    rcases key with ⟨k1, _, k3⟩ | ⟨k1, k3, k4, k5⟩
+    · simp only [] at k1 k3; subst k1; simp [k0, k3]
+    · subst k1; simp [k0, k3, k4, k5]
+
+/-- … in particular for whole-tree scans, and whenever errors are not fatal or gitignore handling is off:
+the context error, no attempt, exactly one inode reported. -/
+theorem run_cancelBefore_ctx (c : Cfg) (hc : c.cancelBefore = true)
+    (hq : c.paths = [] ∨ c.errorOnFSErrors = false ∨ c.useGitignore = false)
+    (r : Node) (f : Faults) (rest : List (Node × Faults)) :
+    (run c ((r, f) :: rest)).err = .ctx ∧ (run c ((r, f) :: rest)).calls = [] ∧ (run c ((r, f) :: rest)).visited = 1 := by
+  obtain ⟨h0, h | h⟩ := run_cancelBefore c hc r f rest
+  · exact ⟨h.1, h0, h.2⟩
+  · rcases hq with hq | hq | hq
+    · exact absurd hq h.2.2.2.2
+    · rw [hq] at h; cases h.2.2.1
+    · rw [hq] at h; cases h.2.2.2.1
+
+/-! ### cancellation "between files" -/
+
+/-- what a scan must do when its context is cancelled right after the j-th `handleFile` call has returned
+(j ≥ 1): the calls so far are complete, nothing later is attempted, and the scan fails iff a call remained -/
+def cancelBetween (j : Nat) (T : List (List Call)) : List Call × Err × Nat :=
+  ((T.take j).flatten, (if T.drop j = [] then .none else .ctx), j + (if T.drop j = [] then 0 else 1))
+
+/-- A cancellation from inside ANY `Extract` of the j-th `handleFile` call is observably the same as a
+cancellation between that call and the next one: the scan cannot tell at which moment of a call the context
+was cancelled, only between calls is it looked at. -/
+theorem cancelOutcome_between (k : Nat) (pre : List (List Call)) (blk : List Call) (post : List (List Call))
+    (h1 : openedCount pre.flatten < k) (h2 : k ≤ openedCount (pre.flatten ++ blk)) :
+    cancelOutcome k 0 (pre ++ blk :: post) = cancelBetween (pre.length + 1) (pre ++ blk :: post) := by
+  rw [openedCount_append] at h2
+  rw [cancelOutcome_split k blk post pre 0 (by omega) (by omega)]
+  have e : pre ++ blk :: post = (pre ++ [blk]) ++ post := by simp
+  have ht : (pre ++ blk :: post).take (pre.length + 1) = pre ++ [blk] := by
+    rw [e, List.take_left' (by simp)]
+  have hd : (pre ++ blk :: post).drop (pre.length + 1) = post := by
+    rw [e, List.drop_left' (by simp)]
+  simp [cancelBetween, ht, hd]
+
 end Scalibr.Walk
